@@ -62,10 +62,13 @@ for m, tier, cap in ((1, "quick", 600), (2, "quick", 900)):
 add("f_on_events_empty", FFI, "verif_kani", ["C20"], cap_s=600, mem_gb=16, group="f_on_events_empty", cls="B",
     encodes=["maybenot_on_events", "MaybenotFramework::on_events", "Framework::trigger_events (real)"],
     bounds="one machine, an EMPTY batch, stale count and buffer in the caller's variables")
-for nm, tier, what in (("m1_bb", "quick", "1 machine, BlockingBegin with any id (a global event whatever id it carries)"),
+for nm, tier, what in (("m1_bb", "thorough", "1 machine, BlockingBegin with any id (a global event whatever id it carries)"),
+                       ("m1_bb_id0", "quick", "1 machine, BlockingBegin naming machine 0"),
+                       ("m1_bb_idu", "quick", "1 machine, BlockingBegin naming a machine that does not exist (id 6): still a global event"),
+                       ("m1_ps_idu", "quick", "1 machine, PaddingSent naming a machine that does not exist (id 6)"),
                        ("m2_bb", "thorough", "2 machines, BlockingBegin with any id"),
                        ("m1_ps0", "quick", "1 machine, PaddingSent for machine 0"),
-                       ("m1_psu", "quick", "1 machine, PaddingSent for any id that names no machine"),
+                       ("m1_psu", "thorough", "1 machine, PaddingSent for any id that names no machine"),
                        ("m1_te0", "thorough", "1 machine, TimerEnd for machine 0")):
     add("f_on_events_" + nm, FFI, "verif_kani", ["C20"], tier=tier, cap_s=900, mem_gb=20, group="f_on_events_" + nm, cls="B",
         encodes=["maybenot_on_events", "MaybenotFramework::on_events", "convert_event", "convert_action",
